@@ -8,7 +8,8 @@ from fractions import Fraction
 from common import Ctx, driver_batch, fmt
 
 PROPERTY = "C06"
-LEAN_MODULES = ["Proofs.C06", "Proofs.C06.Full"]
+LEAN_MODULES = ["Proofs.C06", "Proofs.C06.Full", "Proofs.C06.Close", "Proofs.C06.CloseRel", "Proofs.C06.CloseReal",
+                "Proofs.C06.Inverse", "Proofs.C06.InverseLog"]
 DRIVERS = ["driver", "driver_tick"]
 RULE = ("ticks: stride sample + boundaries + random (thorough: all 1 774 545); sqrt prices on, just above, in the middle of and just "
         "below tick boundaries; buckets = (function, sign of tick, position inside the tick interval, decimals pair, orientation)")
